@@ -377,6 +377,41 @@ def rules(ctx):
     from . import c02 as _c02
     _c02.zero_is_identity(ctx, "C03.generic-zero-test")
     merge_more(ctx)
+    option_polarity(ctx)
+
+
+def option_polarity(ctx, rule="C03.no-mutation"):
+    ctx.explain(f"{rule}: (the compile option) Program.compile optimises exactly when asked: the call of optimize_circuit is control-dependent "
+                "on the `optimize` option with POSITIVE polarity (a path fact `kwargs.get('optimize', ...)` / the option's local that holds "
+                "true), so that the default compile leaves the circuit as decomposed and `optimize=True` runs the optimiser.")
+    f = ctx.tree.func("program.py", "Program.compile")
+    cfg = cfg_of(f.node)
+    from ..dataflow import expand_locals
+    n = 0
+    for c in walk_no_nested(f.node):
+        if not isinstance(c, ast.Call) or (dotted(c.func) or "").split(".")[-1] != "optimize_circuit":
+            continue
+        ids = cfg.node_of_expr(c)
+        if not ids:
+            continue
+        n += 1
+        pos = neg = False
+        for a, v in path_facts(cfg, ids[0]):
+            t = ast.unparse(expand_locals(f.node, a))
+            if "optimize" in t and ("kwargs" in t or "get(" in t):
+                r_ = rel(a, v)
+                if r_ is not None:
+                    # comparisons with a literal: `== True`, `is True`, `!= False` are positive, `== False` negative
+                    lit = [x.value for x in (r_[1], r_[2]) if isinstance(x, ast.Constant) and isinstance(x.value, bool)]
+                    if lit:
+                        truth = (r_[0] in ("==", "is")) == lit[0]
+                        pos, neg = pos or truth, neg or not truth
+                        continue
+                pos, neg = pos or bool(v), neg or not v
+        ok = pos and not neg
+        ctx.ob(rule, f.site, ok, "" if ok else f"`{ast.unparse(c)[:40]}` is not reached exactly when the `optimize` option holds "
+               f"({'negated' if neg else 'not tested'}): the default compile optimises, or optimize=True does not", role="optimize-option", line=c.lineno)
+    ctx.require(n >= 1, "Program.compile no longer calls optimize_circuit")
 
 
 def merge_more(ctx, rule="C03.merge-guards"):
